@@ -21,7 +21,9 @@
 (*     TLC checks over the WHOLE abstract partition that the model meets   *)
 (*     the contract except exactly at the named deviations.                *)
 (*  3. MACHINE: a process as a state machine (environment fixed at start,  *)
-(*     pool of resources, providers, errno) used to export behaviours      *)
+(*     the givens of the SDK build - default resource, schema URLs - as a  *)
+(*     parameter `sdk`, never assumed; pool of resources, providers,       *)
+(*     errno) used to export behaviours                                    *)
 (*     (hist/VIEW idiom) that the C++ harness replays; the resulting logs  *)
 (*     are validated by ResourceEnvTrace.tla against layer 1.              *)
 (*                                                                         *)
@@ -54,6 +56,9 @@ CONSTANTS Dev,       \* deviation names in force ({} = ideal)
           MaxTok,    \* max tokens in the list
           SvcKinds,  \* OTEL_SERVICE_NAME classes explored: subset of {"unset", "empty", "set"}
           MaxPool, MaxProv, MaxSteps,
+          DefUrls,   \* schema URLs the SDK default resource may carry in the model ("" and/or non-empty)
+          DefExtras, \* sets of keys it may carry beyond telemetry.sdk.language/name/version
+          EnvUrls,   \* schema URLs the resource read from the environment may carry in the model
           RdKinds,   \* readers exercised by the machine
           RdPres, RdBodies, RdSufs, RdTb, RdErr  \* string partition explored by the machine
 
@@ -248,10 +253,24 @@ Readings(e) == IF e = "maybe" THEN {"clean", "erange"} ELSE {e}
 
 (* ======================= 1c / 2b. resources ============================ *)
 SvcKey == "service.name"
-DefaultRes == [attrs |-> ("telemetry.sdk.language" :> "dflt_lang" @@ "telemetry.sdk.name" :> "dflt_name"
-                          @@ "telemetry.sdk.version" :> "dflt_ver"), url |-> ""]
 EmptyRes == [attrs |-> <<>>, url |-> ""]
 R(a, u) == [attrs |-> a, url |-> u]
+(* The GIVENS of the SDK build under test: S = [dflt, envurl].
+     S.dflt    the SDK default resource (Resource::GetDefault()): attributes AND schema URL
+     S.envurl  the schema URL of the resource the SDK reads from the environment
+   The statement pins only that the defaults carry telemetry.sdk.language / name / version
+   (DefaultShapeOK); the VALUES of those attributes, further default attributes and both schema URLs are
+   whatever the SDK says.  So they are parameters: the model explores every S of Sdks (constants DefUrls,
+   DefExtras, EnvUrls), trace validation takes S from what the harness observed in the running process
+   (Cfg event) - and the Merge / Create rules of the statement are applied to THAT. *)
+SdkKeys == {"telemetry.sdk.language", "telemetry.sdk.name", "telemetry.sdk.version"}
+DefaultShapeOK(d) == SdkKeys \subseteq DOMAIN d.attrs
+MkDefault(extra, u) ==
+  R([k \in SdkKeys \cup extra |->
+        CASE k = "telemetry.sdk.language" -> "dflt_lang" [] k = "telemetry.sdk.name" -> "dflt_name"
+          [] k = "telemetry.sdk.version" -> "dflt_ver" [] OTHER -> "dflt_x"], u)
+Sdks == {[dflt |-> MkDefault(x, u), envurl |-> eu] : x \in DefExtras, u \in DefUrls, eu \in EnvUrls}
+NoSdk == [dflt |-> MkDefault({}, ""), envurl |-> ""]       \* (modes that have no default resource)
 Over(a, b) == [k \in DOMAIN a \cup DOMAIN b |-> IF k \in DOMAIN b THEN b[k] ELSE a[k]]   \* b over a
 
 \* contract of a.Merge(b) = m
@@ -308,29 +327,32 @@ EnvAlts(ts, svc) ==
                [] OTHER -> {Over(m, (SvcKey :> svc.v))} \cup (IF SvcKey \in DOMAIN m THEN {m} ELSE {})
              : m \in lists }
 
-\* Resource::Create(user, url) with environment map e; fb = the fallback service.name
-CreateRes(e, user, url, fb) ==
-  LET r == Merge(Merge(DefaultRes, R(e, "")), R(user, url))
+\* Resource::Create(user, url) with environment map e under the givens S; fb = the fallback service.name
+CreateRes(S, e, user, url, fb) ==
+  LET r == Merge(Merge(S.dflt, R(e, S.envurl)), R(user, url))
   IN IF SvcKey \in DOMAIN r.attrs THEN r ELSE [r EXCEPT !.attrs = @ @@ (SvcKey :> fb)]
 \* Model of Create with its one known deviation: the service.name fallback reads
 \* process.executable.name with get<std::string>, which throws for any other value type.
 ExeKey == "process.executable.name"
 NonStr == {"i1", "i2", "n1", "u1", "q1", "b1", "b0", "d1", "vs1", "vi1", "vb1", "vd1"}   \* non-string values of the table
-CreateThrows(e, user) ==
-  LET a == Over(Over(DefaultRes.attrs, e), user)
+CreateThrows(S, e, user) ==
+  LET a == Over(Over(S.dflt.attrs, e), user)
   IN SvcKey \notin DOMAIN a /\ ExeKey \in DOMAIN a /\ a[ExeKey] \in NonStr
-CreateModel(D, e, user, url, fb) ==
-  IF "create-nonstring-exe-name-throws" \in D /\ CreateThrows(e, user)
+CreateModel(D, S, e, user, url, fb) ==
+  IF "create-nonstring-exe-name-throws" \in D /\ CreateThrows(S, e, user)
     THEN [threw |-> TRUE, res |-> EmptyRes, dev |-> "create-nonstring-exe-name-throws"]
-    ELSE [threw |-> FALSE, res |-> CreateRes(e, user, url, fb), dev |-> "none"]
-\* contract of Create, stated declaratively
-CreateOK(e, user, url, r) ==
-  /\ DOMAIN r.attrs = DOMAIN user \cup DOMAIN e \cup DOMAIN DefaultRes.attrs \cup {SvcKey}   \* first: guards the lookups
+    ELSE [threw |-> FALSE, res |-> CreateRes(S, e, user, url, fb), dev |-> "none"]
+\* contract of Create, stated declaratively: defaults < environment < caller, for the attributes as the
+\* statement says, for the schema URL by the documented Merge rule applied along the same chain ("the
+\* later one's unless it is empty") - the statement pins neither the default's nor the environment's URL
+CreateUrl(S, url) == IF url # "" THEN url ELSE IF S.envurl # "" THEN S.envurl ELSE S.dflt.url
+CreateOK(S, e, user, url, r) ==
+  /\ DOMAIN r.attrs = DOMAIN user \cup DOMAIN e \cup DOMAIN S.dflt.attrs \cup {SvcKey}       \* first: guards the lookups
   /\ \A k \in DOMAIN user : r.attrs[k] = user[k]                                       \* the caller wins
   /\ \A k \in DOMAIN e \ DOMAIN user : r.attrs[k] = e[k]                               \* then the environment
-  /\ \A k \in DOMAIN DefaultRes.attrs \ (DOMAIN e \cup DOMAIN user) : r.attrs[k] = DefaultRes.attrs[k]
+  /\ \A k \in DOMAIN S.dflt.attrs \ (DOMAIN e \cup DOMAIN user) : r.attrs[k] = S.dflt.attrs[k]   \* then the defaults
   /\ SvcKey \in DOMAIN r.attrs                                                         \* always a service.name
-  /\ r.url = url
+  /\ r.url = CreateUrl(S, url)
 
 PMaps(K, V) == UNION {[D -> V] : D \in SUBSET K}
 AllRes == {R(a, u) : a \in PMaps(Keys, Vals), u \in Urls \cup {""}}
@@ -345,6 +367,7 @@ Svcs == {[c |-> c, v |-> "-"] : c \in SvcKinds \cap {"unset", "empty"}}
 
 (* ======================= 3. the process machine ======================== *)
 VARIABLES env,      \* [toks, svc]: the environment the process was started with
+          sdk,      \* [dflt, envurl]: the givens of the SDK build (see Sdks); never changes
           envalt,   \* the reading of it (one of EnvAlts) this behaviour assumes
           pool,     \* resources created so far (1 = GetDefault(), 2 = GetEmpty())
           provs,    \* providers: [kind, res]
@@ -353,30 +376,35 @@ VARIABLES env,      \* [toks, svc]: the environment the process was started with
           last,     \* the last step with its result (partition modes: the case under test)
           devUsed, nsteps,
           hist      \* behaviour export (hidden by VIEW)
-bvars == <<env, envalt, pool, provs, errno, dead, last, devUsed, nsteps>>
+bvars == <<env, sdk, envalt, pool, provs, errno, dead, last, devUsed, nsteps>>
 vars  == <<bvars, hist>>
 View  == bvars
 
 Rec(e) == hist' = IF Hist THEN Append(hist, e) ELSE hist
 NoEnv == [toks |-> <<>>, svc |-> [c |-> "unset", v |-> "-"]]
 
+\* (hist: `assumes` is the S this behaviour was generated under, and every `exp` is the model's result
+\*  under it - informative only: the harness cannot choose the SDK's givens, it observes them, and the
+\*  log of the replay is judged by ResourceEnvTrace with the OBSERVED S)
 InitMachine ==
   /\ env \in {[toks |-> t, svc |-> s] : t \in TokLists, s \in Svcs}
+  /\ sdk \in Sdks
   /\ envalt \in EnvAlts(env.toks, env.svc)
-  /\ pool = <<DefaultRes, EmptyRes>> /\ provs = <<>> /\ errno = "clean" /\ dead = FALSE
+  /\ pool = <<sdk.dflt, EmptyRes>> /\ provs = <<>> /\ errno = "clean" /\ dead = FALSE
   /\ last = [op |-> "Cfg"] /\ devUsed = {} /\ nsteps = 0
-  /\ hist = IF Hist THEN <<[op |-> "Cfg", toks |-> env.toks, svc |-> env.svc]>> ELSE <<>>
-InitCase(c) ==
-  /\ env = NoEnv /\ envalt = <<>> /\ pool = <<>> /\ provs = <<>> /\ errno = "clean" /\ dead = FALSE
+  /\ hist = IF Hist THEN <<[op |-> "Cfg", toks |-> env.toks, svc |-> env.svc, assumes |-> sdk]>> ELSE <<>>
+InitCaseS(c, S) ==
+  /\ env = NoEnv /\ sdk = S /\ envalt = <<>> /\ pool = <<>> /\ provs = <<>> /\ errno = "clean" /\ dead = FALSE
   /\ devUsed = {} /\ nsteps = 0 /\ hist = <<>> /\ last = c
+InitCase(c) == InitCaseS(c, NoSdk)
 Init ==
   CASE Mode = "machine" -> InitMachine
     [] Mode = "readers" -> \E r \in Readers, s \in AllStrs, e \in {"clean", "erange"} :
                               InitCase([op |-> "Case", r |-> r, s |-> s, e |-> e])
     [] Mode = "pairs"   -> \E a \in AllRes, b \in AllRes, c \in AllRes :
                               InitCase([op |-> "Case", a |-> a, b |-> b, c |-> c])
-    [] Mode = "envs"    -> \E t \in TokLists, s \in Svcs, u \in PMaps(Keys, Vals), url \in Urls \cup {""} :
-                              InitCase([op |-> "Case", toks |-> t, svc |-> s, user |-> u, url |-> url])
+    [] Mode = "envs"    -> \E t \in TokLists, s \in Svcs, u \in PMaps(Keys, Vals), url \in Urls \cup {""}, S \in Sdks :
+                              InitCaseS([op |-> "Case", toks |-> t, svc |-> s, user |-> u, url |-> url], S)
 
 Live == Mode = "machine" /\ ~dead /\ nsteps < MaxSteps
 Step == nsteps' = nsteps + 1
@@ -385,38 +413,38 @@ New(a, u) ==
   /\ Live /\ Len(pool) < MaxPool
   /\ pool' = Append(pool, R(a, u)) /\ Step
   /\ last' = [op |-> "New", res |-> R(a, u)]
-  /\ UNCHANGED <<env, envalt, provs, errno, dead, devUsed>>
+  /\ UNCHANGED <<env, sdk, envalt, provs, errno, dead, devUsed>>
   /\ Rec([op |-> "New", attrs |-> a, url |-> u, exp |-> R(a, u)])
 Create(a, u) ==
   /\ Live /\ Len(pool) < MaxPool
-  /\ LET m == CreateModel(Dev, envalt, a, u, "ANY")
-         r == CreateRes(envalt, a, u, "ANY") IN
+  /\ LET m == CreateModel(Dev, sdk, envalt, a, u, "ANY")
+         r == CreateRes(sdk, envalt, a, u, "ANY") IN
      /\ pool' = IF m.threw THEN pool ELSE Append(pool, r)
      /\ Step
      /\ dead' = m.threw                      \* the behaviour ends where the code deviates
      /\ devUsed' = IF m.threw THEN devUsed \cup {m.dev} ELSE devUsed
      /\ last' = [op |-> "Create", user |-> a, url |-> u, res |-> r, threw |-> m.threw, dev |-> m.dev]
      /\ Rec([op |-> "Create", user |-> a, url |-> u, exp |-> r,
-             dev |-> CreateModel(AllDevs, envalt, a, u, "ANY").dev])
-  /\ UNCHANGED <<env, envalt, provs, errno>>
+             dev |-> CreateModel(AllDevs, sdk, envalt, a, u, "ANY").dev])
+  /\ UNCHANGED <<env, sdk, envalt, provs, errno>>
 MergeStep(i, j) ==
   /\ Live /\ Len(pool) < MaxPool
   /\ LET r == Merge(pool[i], pool[j]) IN
      /\ pool' = Append(pool, r) /\ Step
      /\ last' = [op |-> "Merge", a |-> i, b |-> j, res |-> r]
      /\ Rec([op |-> "Merge", a |-> i, b |-> j, exp |-> r])
-  /\ UNCHANGED <<env, envalt, provs, errno, dead, devUsed>>
+  /\ UNCHANGED <<env, sdk, envalt, provs, errno, dead, devUsed>>
 MkProv(kind, i) ==
   /\ Live /\ Len(provs) < MaxProv
   /\ provs' = Append(provs, [kind |-> kind, res |-> i]) /\ Step
   /\ last' = [op |-> "MkProv", kind |-> kind, res |-> i]
-  /\ UNCHANGED <<env, envalt, pool, errno, dead, devUsed>>
+  /\ UNCHANGED <<env, sdk, envalt, pool, errno, dead, devUsed>>
   /\ Rec([op |-> "MkProv", kind |-> kind, res |-> i, exp |-> pool[i]])
 \* a span / log record / metric batch produced through provider p: the exporter sees p's resource
 Emit(p) ==
   /\ Live /\ Step
   /\ last' = [op |-> "Emit", p |-> p, seen |-> pool[provs[p].res]]
-  /\ UNCHANGED <<env, envalt, pool, provs, errno, dead, devUsed>>
+  /\ UNCHANGED <<env, sdk, envalt, pool, provs, errno, dead, devUsed>>
   /\ Rec([op |-> "Emit", p |-> p, exp |-> pool[provs[p].res]])
 \* set the variable to s, (e = erange/clean: foreign code leaves that errno; asis: untouched), call reader r
 Read(r, s, e) ==
@@ -433,7 +461,7 @@ Read(r, s, e) ==
         /\ errno' = ErrnoAfter(r, s, eff)
         /\ Rec([op |-> "Read", r |-> r, s |-> s, errno |-> e, exp |-> Contract(r, s),
                 dev |-> mAll.dev, expDev |-> DevOuts(mAll)])
-  /\ UNCHANGED <<env, envalt, pool, provs>>
+  /\ UNCHANGED <<env, sdk, envalt, pool, provs>>
 
 RdStrs == {s \in Strs : s.pre \in RdPres /\ s.body \in RdBodies /\ s.suf \in RdSufs /\ s.tb \in RdTb}
           \cup (IF "unset" \in RdPres THEN {Unset} ELSE {})
@@ -481,14 +509,25 @@ MergeAssociative == Mode = "pairs" => Merge(Merge(last.a, last.b), last.c) = Mer
 (* -- Create over every environment (Mode = "envs") ---------------------- *)
 CaseAlts == EnvAlts(last.toks, last.svc)
 CreatePrecedence == Mode = "envs" =>
-   \A e \in CaseAlts : CreateOK(e, last.user, last.url, CreateRes(e, last.user, last.url, "ANY"))
+   \A e \in CaseAlts : CreateOK(sdk, e, last.user, last.url, CreateRes(sdk, e, last.user, last.url, "ANY"))
 ServiceNameAlwaysPresent == Mode = "envs" =>
-   \A e \in CaseAlts : SvcKey \in DOMAIN CreateRes(e, last.user, last.url, "ANY").attrs
+   \A e \in CaseAlts : SvcKey \in DOMAIN CreateRes(sdk, e, last.user, last.url, "ANY").attrs
 \* the model of Create meets the contract for every reading of the environment, except through its deviation
 CreateModelOK == Mode = "envs" =>
-   \A e \in CaseAlts : LET m == CreateModel(Dev, e, last.user, last.url, "ANY")
-                        IN IF m.threw THEN m.dev \in Dev ELSE CreateOK(e, last.user, last.url, m.res)
-WitCreateThrows == Mode = "envs" => \A e \in CaseAlts : ~CreateModel(Dev, e, last.user, last.url, "ANY").threw
+   \A e \in CaseAlts : LET m == CreateModel(Dev, sdk, e, last.user, last.url, "ANY")
+                        IN IF m.threw THEN m.dev \in Dev ELSE CreateOK(sdk, e, last.user, last.url, m.res)
+WitCreateThrows == Mode = "envs" => \A e \in CaseAlts : ~CreateModel(Dev, sdk, e, last.user, last.url, "ANY").threw
+\* the schema URL of Create's result, spelled out once more: a non-empty caller URL always wins; the
+\* default's URL survives only when neither the caller nor the environment brings one
+CreateUrlChain == Mode = "envs" =>
+   \A e \in CaseAlts : LET r == CreateRes(sdk, e, last.user, last.url, "ANY")
+                        IN /\ last.url # "" => r.url = last.url
+                           /\ (last.url = "" /\ sdk.envurl # "") => r.url = sdk.envurl
+                           /\ (last.url = "" /\ sdk.envurl = "") => r.url = sdk.dflt.url
+\* vacuity guards on the givens explored (expected to be VIOLATED): a default with a non-empty schema URL
+\* that reaches the result; an environment URL that replaces it
+WitDefaultUrlKept == Mode = "envs" => ~(sdk.dflt.url # "" /\ last.url = "" /\ sdk.envurl = "")
+WitEnvUrlWins == Mode = "envs" => ~(sdk.dflt.url # "" /\ last.url = "" /\ sdk.envurl # "" /\ sdk.envurl # sdk.dflt.url)
 \* a well-formed list without repeated keys has exactly one reading: its pairs (+ OTEL_SERVICE_NAME)
 WellFormed(ts) == ~Malformed(ts) /\ \A i, j \in 1..Len(ts) : i # j => ts[i].k # ts[j].k
 EnvExact == Mode = "envs" => (WellFormed(last.toks) /\ last.svc.c = "unset" =>
@@ -505,12 +544,14 @@ MMergePrecedence == (Mode = "machine" /\ last.op = "Merge") => MergePrecedenceOK
 \* operands (and everything else created before) are unchanged: the pool only grows
 MergeLeavesOperandsUnchanged == [][Mode = "machine" => SubSeq(pool', 1, Len(pool)) = pool]_vars
 MCreate == (Mode = "machine" /\ last.op = "Create") =>
-              (CreateOK(envalt, last.user, last.url, last.res)
+              (CreateOK(sdk, envalt, last.user, last.url, last.res)
                /\ IF last.threw THEN last.dev \in Dev ELSE last.res = pool[Len(pool)])
 MServiceName == (Mode = "machine" /\ last.op = "Create") => SvcKey \in DOMAIN last.res.attrs
 MEmitSeesProviderResource == (Mode = "machine" /\ last.op = "Emit") => last.seen = pool[provs[last.p].res]
 MRead == (Mode = "machine" /\ last.op = "Read") => (last.out \in Contract(last.r, last.s) \/ last.dev \in Dev)
 MDead == (Mode = "machine" /\ dead) => devUsed # {}
+\* the givens are well-formed and stay first in the pool (GetDefault() is operand 1 of the machine)
+MGivens == Mode = "machine" => (DefaultShapeOK(sdk.dflt) /\ pool[1] = sdk.dflt)
 
 (* ======================= behaviour export ============================== *)
 Terminal == dead \/ nsteps = MaxSteps
@@ -519,7 +560,7 @@ Wit(c) == (Hist /\ c) => (PrintT(<<"BEH", ToJson(hist)>>) /\ FALSE)      \* shor
 \* rare conditions that must be replayed on the real code on every run
 CFallback == \E i \in 1..Len(pool) : SvcKey \in DOMAIN pool[i].attrs /\ pool[i].attrs[SvcKey] = "ANY"
 CUserOverEnv == last.op = "Create" /\ \E k \in DOMAIN last.user \cap DOMAIN envalt : last.user[k] # envalt[k]
-CEnvOverDefault == last.op = "Create" /\ \E k \in DOMAIN envalt \cap DOMAIN DefaultRes.attrs : k \notin DOMAIN last.user
+CEnvOverDefault == last.op = "Create" /\ \E k \in DOMAIN envalt \cap DOMAIN sdk.dflt.attrs : k \notin DOMAIN last.user
 CSvcEnvBoth == last.op = "Create" /\ env.svc.c = "set" /\ \E i \in 1..Len(env.toks) : env.toks[i].t = "kv" /\ env.toks[i].k = SvcKey /\ env.toks[i].v # env.svc.v
 \* vacuity guards for a full BFS export: TLC says which rare conditions the exported behaviours contain
 Tag(n, c) == c => PrintT(<<"TAG", n>>)
